@@ -70,6 +70,54 @@ func compileCase(c *Case) (*xpath.Expr, error) {
 	return xpath.Compile(c.Expr)
 }
 
+// mustCompileOutcome: "" when MustCompile returned a non-nil expression without panicking and, for an
+// input Compile rejects, that expression can be used (String, Select and Evaluate answer); else what went wrong.
+func mustCompileOutcome(expr string) (out string) {
+	stage := "mustpanic"
+	defer func() {
+		if r := recover(); r != nil {
+			out = fmt.Sprintf("%s:%v", stage, r)
+			if len(out) > 200 {
+				out = out[:200]
+			}
+		}
+	}()
+	m := xpath.MustCompile(expr)
+	if m == nil {
+		return "mustnil"
+	}
+	if _, err := xpath.Compile(expr); err == nil {
+		return ""
+	}
+	stage = "mustunusable"
+	if m.String() != expr {
+		return "mustunusable:String"
+	}
+	tr := BuildTree(Doc{{Depth: 0, Kind: 'r'}, {Depth: 1, Kind: 'e', Name: "a"}, {Depth: 2, Kind: 't', Data: "x"}})
+	nav := &Nav{t: tr, cur: tr.nodes[1], attr: -1}
+	it := m.Select(nav)
+	if it == nil {
+		return "mustunusable:Select=nil"
+	}
+	for k := 0; it.MoveNext(); k++ {
+		if it.Current() == nil || k > 8 {
+			return "mustunusable:Select"
+		}
+	}
+	switch v := m.Evaluate(nav).(type) {
+	case nil, bool, float64, string:
+	case *xpath.NodeIterator:
+		for k := 0; v.MoveNext(); k++ {
+			if k > 8 {
+				return "mustunusable:Evaluate"
+			}
+		}
+	default:
+		return fmt.Sprintf("mustunusable:Evaluate=%T", v)
+	}
+	return ""
+}
+
 func drain(it *xpath.NodeIterator, max int) ([]Ref, bool) {
 	var out []Ref
 	for it.MoveNext() {
@@ -125,14 +173,17 @@ func runCase(c *Case) (res string) {
 			if e != nil {
 				return "both"
 			}
+			// MustCompile must answer on the rejected inputs too, with something that can be used
+			if must := mustCompileOutcome(c.Expr); must != "" {
+				return must
+			}
 			return "cerr"
 		}
 		if e == nil {
 			return "neither"
 		}
-		m := xpath.MustCompile(c.Expr)
-		if m == nil {
-			return "mustnil"
+		if must := mustCompileOutcome(c.Expr); must != "" {
+			return must
 		}
 		return "ok"
 	case "ast":
